@@ -50,6 +50,7 @@ extern "C" {
 
 #define CO_RPDO_FLG__E      0x01                    /*!< enabled RPDO        */
 #define CO_RPDO_FLG_S_      0x02                    /*!< synchronized RPDO   */
+#define CO_RPDO_FLG_R__     0x04                    /*!< received, wait SYNC */
 
 
 /*! \brief RPDO COB-ID parameter
